@@ -4,6 +4,8 @@ func init() {
 	const ans = "db/answer.go"
 	const srt = "db/answer_sorted.go"
 	addVariants(
+		variant{Name: "c01-sorted-wildsafe-last-label-only(seed c01a)", Props: []string{"C01"}, Expect: []string{"C01.wildsafe-span|(*db.sortedDataReader).FindAnswer|wildsafe#1|covers-the-skipped-span"},
+			Edits: []edit{{"db/answer_sorted.go", "\t\t// i points to the first character of the label\n\t\t// i-1 is length of the label\n\t\ti := length\n\n\t\tfor i < lastLength {\n\t\t\tlabelLength := int(q[i-1])\n\t\t\tlabel := q[i : i+labelLength]\n\n\t\t\tif !dnsLabelWildsafe(label) {\n\t\t\t\treturn false\n\t\t\t}\n\n\t\t\ti += labelLength + 1\n\t\t}\n\n\t\tlastLength = length\n", "\t\tif length < lastLength {\n\t\t\tlabelStart := getLengthWithoutLastLabel(q, lastLength)\n\n\t\t\tif !dnsLabelWildsafe(q[labelStart : lastLength-1]) {\n\t\t\t\treturn false\n\t\t\t}\n\n\t\t\tlastLength = length\n\t\t}\n"}}},
 		variant{Name: "c01-sorted-zone-border-invariant(F3)", Props: []string{"C01"}, Expect: []string{"C01.guards|(*db.sortedDataReader).FindAnswer|pre|guard:zone-border"},
 			Edits: []edit{{srt, "\t\tif length < len(packedControlName) {", "\t\tif len(q) < len(packedControlName) {"}}},
 		variant{Name: "c01-v1-zone-border-removed", Props: []string{"C01"}, Expect: []string{"C01.guards|(*db.DataReader).FindAnswer|guard:zone-border"},
